@@ -38,6 +38,10 @@ def correspond(ctx):
 
 
 def search(ctx):
+    from ._adapters2 import SPEC_ONLY
+
+    for k, ad in SPEC_ONLY.items():
+        K.c03_spec_only(ctx, ad, ctx.n(40, 400) * (3 if ctx.escalated else 1))
     # the direct evaluation (spec-load:<fmt>) is part of c03_flow; with a broken obligation run a second, larger batch
     if ctx.escalated:
         for k in FORMATS:
